@@ -28,6 +28,7 @@ type tqRealCase struct {
 	Workers  int        `json:"workers"`  // lfs.concurrenttransfers
 	Batch    int        `json:"batch"`    // batch size
 	Retries  int        `json:"retries"`  // lfs.transfer.maxretries
+	Authenticated bool  `json:"authenticated,omitempty"` // the batch answer marks its objects `authenticated: true` (no credentials are to be added)
 	Contents [][]byte   `json:"-"`
 }
 
@@ -89,16 +90,17 @@ func tqRealChildMain(workdir, js string) {
 				Href string `json:"href"`
 			}
 			type obj struct {
-				Oid     string         `json:"oid"`
-				Size    int64          `json:"size"`
-				Actions map[string]act `json:"actions"`
+				Oid           string         `json:"oid"`
+				Size          int64          `json:"size"`
+				Authenticated bool           `json:"authenticated,omitempty"`
+				Actions       map[string]act `json:"actions"`
 			}
 			out := struct {
 				Transfer string `json:"transfer"`
 				Objects  []obj  `json:"objects"`
 			}{Transfer: "basic"}
 			for _, o := range req.Objects {
-				out.Objects = append(out.Objects, obj{o.Oid, o.Size, map[string]act{"download": {srv.URL + "/storage/" + o.Oid}}})
+				out.Objects = append(out.Objects, obj{o.Oid, o.Size, tc.Authenticated, map[string]act{"download": {srv.URL + "/storage/" + o.Oid}}})
 			}
 			rw.Header().Set("Content-Type", "application/vnd.git-lfs+json")
 			json.NewEncoder(rw).Encode(out)
@@ -117,7 +119,7 @@ func tqRealChildMain(workdir, js string) {
 			k = len(sc) - 1
 		}
 		switch sc[k] {
-		case "503", "500", "404":
+		case "503", "500", "404", "401", "403":
 			var code int
 			fmt.Sscan(sc[k], &code)
 			rw.WriteHeader(code)
@@ -228,6 +230,12 @@ func c06Real(c *Ctx, r *Rng, prop string) {
 			}
 			tc.Scripts = append(tc.Scripts, sc)
 		}
+		if r.Chance(12) {
+			// directed: the storage host refuses the request for want of credentials although the batch answer
+			// said none are needed (a pre-signed URL that has been revoked): a plain failure of that object
+			tc.Authenticated = r.Chance(70)
+			tc.Scripts[r.Intn(nobj)] = []string{Pick(r, []string{"401", "401", "403"})}
+		}
 		if r.Chance(35) {
 			// directed: the FIRST transfer a worker picks up (the largest object of the first batch) fails
 			// before anything was received, several workers are configured
@@ -303,7 +311,15 @@ func c06Real(c *Ctx, r *Rng, prop string) {
 			case d == 0 && !covered:
 				fail("an object was neither delivered nor covered by an error (real basic adapter)", fmt.Sprintf("%s errors=%s", oid[:12], clip(errs, 200)))
 			}
-			if prop == "C15" && o.Gets[oid] > 1+tc.Retries+1 {
+			// an attempt refused for want of credentials is sent again a bounded number of times WITHIN the
+			// attempt (tq.maxAuthResubmissions = 3: the refusal may have taught the access mode, multi-stage schemes)
+			bound := 1 + tc.Retries + 1
+			for _, e := range tc.Scripts[k] {
+				if e == "401" {
+					bound = (1 + tc.Retries) * 4
+				}
+			}
+			if prop == "C15" && o.Gets[oid] > bound {
 				fail("an object was requested from storage more often than 1 + maxretries allows (real basic adapter)", fmt.Sprintf("%s: %d GETs, maxretries %d", oid[:12], o.Gets[oid], tc.Retries))
 			}
 		}
